@@ -62,7 +62,7 @@ COMMON_ENS = [
 
 contract(MP + "solve", types={"self": {"solvers": "list[N]", "statistics": "i64[N,13]"}},
     ghost={"msg_proc": "int[M]", "msg_none": "bool[M]", "marker_pos": "int[N]", "yield_idx": "int[M]", "sol_table": "int[M,V]", "stats_table": "int[M,13]"}, ghost_init={"pos": 0, "yielded": "emptylist"},
-    requires=WF, env={"get_message": h_get, "yield": h_yield, "processes.append": h_noop, "processes[proc_idx].start": h_noop}, result="none", props=["C11", "C17", "C18"],
+    requires=WF, env={"get_message": h_get, "yield": h_yield, "processes.append": h_noop, "processes[proc_idx].start": h_noop}, result="none", props=["C11", "C17", "C18", "C04"],
     loops={1: dict(index="i", fingerprint="for enumerate(self.solvers)", invariant=[("C11.nomsg", "pos == 0 and len(yielded) == 0")], also_modifies=["processes"]),
            2: dict(fingerprint="while nb > 0", also_modifies=["pos", "yielded", "yield_idx"], decreases="M - pos", init_hints=INIT_HINTS,
                    invariant=INV + [
@@ -103,7 +103,7 @@ for variant, iface, cmp in (("min", "iface:Lt", "<="), ("max", "iface:Gt", ">=")
         types={"self": {"solvers": "list[N]", "statistics": "i64[N,13]"}, "variable_idx": "int", "proc_func_name": "opaque", "comparison_func": "opaque"},
         ghost={"msg_proc": "int[M]", "msg_none": "bool[M]", "marker_pos": "int[N]", "sol_table": "int[M,V]", "stats_table": "int[M,13]"}, ghost_init={"pos": 0},
         requires=WF + ["0 <= variable_idx and variable_idx < V"], env={"get_message": h_get, "processes.append": h_noop, "processes[proc_idx].start": h_noop}, calls={"comparison_func": iface},
-        result="none", props=["C11", "C17", "C18", "C03"],
+        result="none", props=["C11", "C17", "C18", "C03", "C04"],
         loops={1: dict(index="i", fingerprint="for enumerate(self.solvers)", invariant=[("C11.nomsg", "pos == 0")], also_modifies=["processes"]),
                2: dict(fingerprint="while nb > 0", also_modifies=["pos"], decreases="M - pos", init_hints=INIT_HINTS, var_types={"best_solution": best_cases},
                        invariant=INV + BEST_INV, hints=HEAD_HINTS, step_hints=STEP_HINTS, exit_hints=EXIT_HINTS)},
